@@ -111,6 +111,9 @@ def calls_of(ev, *names):
 
 
 # ------------------------------------------------------------------------------------------------ R-PUBLISH
+PUBLISH_EXEMPT_CLASS = {
+    'yaclib::detail::ReadyCore': 'the result is stored by the ReadyCore constructor (any member, also extracted helpers)',
+}
 PUBLISH_EXEMPT = {
     'yaclib::detail::ReadyCore::Call': 'the result is stored by the ReadyCore constructor',
     'yaclib::detail::ReadyCore::Here': 'the result is stored by the ReadyCore constructor',
@@ -127,7 +130,7 @@ def check_publish(ctx, fb, rule):
         if f.cfg is None or not f.qn.startswith('yaclib::'):
             continue
         pubs = [c for c in f.calls() if c['cn'].split('::')[-1] in ('SetResult', 'SetResultImpl')]
-        if not pubs or f.qn in PUBLISH_EXEMPT:
+        if not pubs or f.qn in PUBLISH_EXEMPT or f.clsq in PUBLISH_EXEMPT_CLASS:
             continue
         if f.n in ('SetResult', 'SetResultImpl'):
             continue
@@ -653,6 +656,13 @@ def _released_object(f, i):
         return ('m', f.text(n['i']))
     if n['k'] in ('CallExpr', 'CXXMemberCallExpr') and n.get('cn', '').endswith('DownCast') and n.get('args'):
         return _released_object(f, n['args'][0])
+    if n['k'] == 'CXXOperatorCallExpr' and n.get('op') in ('*', '->') and n.get('args'):
+        a = f.sn(n['args'][0])  # (*it)->DecRef(): the element the iterator currently points to
+        if a is not None and a['k'] == 'DeclRefExpr' and 'id' in a:
+            return ('it', a['id'])
+        return _released_object(f, n['args'][0])
+    if n['k'] in ('ArraySubscriptExpr', 'CXXOperatorCallExpr', 'CallExpr', 'CXXMemberCallExpr'):
+        return ('x', n['k'], f.text(n['i']))  # _cores[i], Get(): identified by its spelling
     return None
 
 
@@ -705,6 +715,12 @@ def check_after_release(ctx, fb, rule, scope=None):
                     hit = m['k'] == 'CXXThisExpr'
                 elif obj[0] == 'v':
                     hit = m['k'] == 'DeclRefExpr' and m.get('id') == obj[1]
+                elif obj[0] == 'it':
+                    a = f.sn(m['args'][0]) if m['k'] == 'CXXOperatorCallExpr' and m.get('op') in ('*', '->') and \
+                        m.get('args') else None
+                    hit = a is not None and a['k'] == 'DeclRefExpr' and a.get('id') == obj[1]
+                elif obj[0] == 'x':
+                    hit = m['k'] == obj[1] and f.text(e) == obj[2]
                 else:
                     hit = m['k'] == 'MemberExpr' and f.text(e) == obj[1]
                 return hit and not in_decref(e)
@@ -714,12 +730,20 @@ def check_after_release(ctx, fb, rule, scope=None):
                 if not isinstance(e, int) or obj == 'this':
                     return False
                 m = f.nodes[e]
+                if obj[0] in ('v', 'it'):
+                    # the pointer / iterator moves on: ++it, it++, p = next
+                    t = None
+                    if m['k'] == 'UnaryOperator' and m.get('op') in ('++', '--'):
+                        t = f.sn(m['ch'][0])
+                    elif m['k'] == 'CXXOperatorCallExpr' and m.get('op') in ('++', '--', '=', '+=') and m.get('args'):
+                        t = f.sn(m['args'][0])
+                    elif m['k'] in ('BinaryOperator', 'CompoundAssignOperator') and m.get('op') in ('=', '+=', '-='):
+                        t = f.sn(m['ch'][0])
+                    return t is not None and t['k'] == 'DeclRefExpr' and t.get('id') == obj[1]
                 if m['k'] == 'BinaryOperator' and m.get('op') == '=':
                     l = f.sn(m['ch'][0])
-                    if l is None:
+                    if l is None or obj[0] == 'x':
                         return False
-                    if obj[0] == 'v':
-                        return l['k'] == 'DeclRefExpr' and l.get('id') == obj[1]
                     return l['k'] == 'MemberExpr' and f.text(l['i']) == obj[1]
                 return False
 
@@ -727,7 +751,11 @@ def check_after_release(ctx, fb, rule, scope=None):
                 par = f.parents.get(e)
                 while par is not None and f.nodes[par]['k'] in _WRAP:
                     par = f.parents.get(par)
-                return par is not None and is_kill(par) and f.strip(f.nodes[par]['ch'][0]) == e
+                if par is None or not is_kill(par):
+                    return False
+                first = f.nodes[par].get('args', f.nodes[par].get('ch', [None]))
+                first = (f.nodes[par].get('args') or f.nodes[par].get('ch') or [None])[0]
+                return f.strip(first) == e
 
             def bad_use(b, i, e):
                 return is_use(b, i, e) and not lhs_of_kill(e) and \
@@ -840,14 +868,11 @@ def check_loop_caller(ctx, fb, rule, scope=None):
 
 # ------------------------------------------------------------------------------------------------ R-MOVEOUT.sites
 
-# functions that may move the stored Result out of a core whose static type does not say "unique"; each has its own
-# guard rule (R-MOVEOUT / R-CONSTOBS / R-DISPATCH)
+# The two places that move by construction (their own rules decide them); every other move-out of a core that is not
+# statically unique must itself be dominated by the test GetRef() == 1 (this observer is provably the last one)
 MOVE_SITES = {
-    'yaclib::detail::SharedCore::Retire': 'moves only under GetRef() == 1 (R-MOVEOUT)',
     'yaclib::detail::ResultCore::MoveOrConst': 'the caller selects move by IsFromUnique(Type) (R-CONSTOBS)',
     'yaclib::detail::ResultCore::Impl': 'moves below the kSharedRefNoFuture threshold only (R-MOVEOUT)',
-    'yaclib::SharedFutureBase::Get': 'rvalue overload, moves only under GetRef() == 1 (R-MOVEOUT)',
-    'yaclib::SharedFutureBase::Touch': 'rvalue overload, moves only under GetRef() == 1 (R-MOVEOUT)',
 }
 
 
@@ -860,10 +885,11 @@ def _static_object_type(f, i):
 
 
 def check_move_sites(ctx, fb, rule, scope=None):
-    """who-may-move: std::move / std::forward applied to ResultCore::Get() of a core that is not statically a
-    UniqueCore happens only in the frozen, individually guarded functions above; everybody else (the combinator
-    strategies in particular: their InputCore is the common base ResultCore<V,E> as soon as unique and shared inputs
-    are mixed) takes the value through the virtual Retire(), which copies while other holders exist."""
+    """std::move / std::forward applied to ResultCore::Get() of a core that is not statically a UniqueCore must be
+    dominated, on every path, by the true edge of GetRef() == 1 (in whatever function it sits: Retire, the rvalue
+    Get()/Touch() of SharedFuture, a helper extracted from them); the two by-construction movers above have their
+    own rules.  The combinator strategies in particular must not move: their InputCore is the common base
+    ResultCore<V,E> as soon as unique and shared inputs are mixed, so they take values through the virtual Retire()."""
     n = 0
     for f in sorted(fb.fn.values(), key=lambda f: f.full):
         if f.cfg is None or (scope is not None and not scope(f)):
@@ -886,8 +912,86 @@ def check_move_sites(ctx, fb, rule, scope=None):
                          dict(function=f.full[:160], object_type=ot[:100], at=f.loc(m)))
             if unique or f.qn in MOVE_SITES:
                 continue
+            # guarded in place? every path that reaches this move established GetRef() == 1 before it
+            guarded = True
+            try:
+                for st, _ in CoreWalker(fb).run(f):
+                    ev = st.events
+                    for i, e in enumerate(ev):
+                        if e[0] == 'call' and e[1] == 'std::move' and e[2] == m['i']:
+                            if not any(x[0] == 'cmp' and x[1] == '==' and x[2] == 1 and x[3] is True and
+                                       'GetRef' in x[4] for x in ev[:i]):
+                                guarded = False
+            except pathwalk.TooManyPaths:
+                guarded = False
+            if guarded:
+                continue
             ctx.report(rule, key, f.loc(m), 'the stored Result of a core whose static type is %s (it may be a shared '
-                       'core with other observers) is moved out outside the guarded move-out sites: other observers '
-                       'read a moved-from value; take it through Retire()' % (ot[:120] or '?'),
-                       'function: %s\nallowed sites: %s' % (f.full[:300], ', '.join(sorted(MOVE_SITES))))
+                       'core with other observers) is moved out on a path that did not establish GetRef() == 1: other '
+                       'observers read a moved-from value; take it through Retire() or test the count first' % (
+                           ot[:120] or '?'), 'function: %s' % f.full[:300])
     return n
+
+
+# ------------------------------------------------------------------------------------------------ R-COMMIT
+
+def check_commit(ctx, fb, rule):
+    """R-COMMIT: Promise::Set / SharedPromise::Set construct the Result in place from the caller's arguments
+    (ResultCore::Store is noexcept only if that construction is) and give the promise's handle away
+    (_core.Release()).  The Store must come first on every path: if it throws, the promise must still be Valid(), so
+    that it can be set again or deliver the broken-promise StopError from its destructor; a handle released before a
+    throwing Store leaves a future that never becomes ready and a leaked state."""
+    n = 0
+    for f in sorted(fb.fn.values(), key=lambda f: f.full):
+        if f.cfg is None or f.qn not in ('yaclib::Promise::Set', 'yaclib::SharedPromise::Set'):
+            continue
+        w = CoreWalker(fb)
+        w.inline_helpers = True
+        try:
+            res = w.run(f)
+        except pathwalk.TooManyPaths as e:
+            ctx.broken('R-COMMIT %s: %s' % (f.full, e))
+        n += 1
+        key = 'R-COMMIT %s' % f.qn
+        ctx.instance(rule, key + ' :: ' + f.full[:140], dict(function=f.full[:160], paths=len(res)))
+        for st, _ in res:
+            names = [(e[1], e[3]) for e in st.events if e[0] == 'call']
+            rel = [i for i, (c, _) in enumerate(names) if c == 'yaclib::IntrusivePtr::Release']
+            sto = [i for i, (c, _) in enumerate(names) if c == 'yaclib::detail::ResultCore::Store']
+            if not sto:
+                ctx.report(rule, key, f.where, 'Set does not store a result on some path')
+                break
+            if rel and rel[0] < sto[0]:
+                ctx.report(rule, key, names[rel[0]][1], 'the promise gives its handle away (Release) before the Result is '
+                           'constructed (Store): if that construction throws, the promise is no longer Valid(), cannot '
+                           'be set again and its destructor delivers nothing — the future never becomes ready',
+                           'function: ' + f.full[:300])
+                break
+    return n
+
+
+# ------------------------------------------------------------------------------------------------ R-ODR
+
+def check_undefined_inline(ctx, fb, rule, scope=None):
+    """R-ODR: an inline / constexpr function of the library that is called from an instantiated library function has
+    a definition in that translation unit (the extractor flags calls whose callee is inlined, not deleted / defaulted
+    / builtin, and has no body anywhere in the unit).  Otherwise the program is ill-formed, no diagnostic required:
+    the call compiles with a warning at best and every use of the calling API fails to link."""
+    ncalls = 0
+    bad = {}
+    for f in fb.fn.values():
+        if scope is not None and not scope(f):
+            continue
+        for n in f.own_nodes():
+            if 'ck' not in n or not n.get('cn', '').startswith('yaclib'):
+                continue
+            ncalls += 1
+            if n.get('ui'):
+                bad.setdefault((n['cn'], f.qn), (f, n))
+    ctx.instance(rule, 'R-ODR calls to library functions', dict(calls_checked=ncalls, undefined_inline=len(bad)))
+    for (cn, qn), (f, n) in sorted(bad.items()):
+        ctx.report(rule, 'R-ODR %s used by %s' % (cn, qn), f.loc(n),
+                   '%s is declared inline/constexpr in a header but has no definition in the translation unit that '
+                   'uses it through %s: the use is ill-formed (no diagnostic required) and does not link — this part '
+                   'of the API cannot be used at all' % (cn, qn), 'caller: ' + f.full[:300])
+    return ncalls
